@@ -13,7 +13,7 @@
       already ties to the code; the composition only threads their outcomes.
     Definitions only; proofs live in Proofs/PanicsProofs.v. *)
 From KV Require Import Bytes RustInt RustStd.
-From KV Require PathSan Range RangeConn Http1Read Hosts Negotiate Cors.
+From KV Require PathSan Range RangeConn Http1Read Hosts Negotiate Cors CacheControl.
 Open Scope N_scope.
 
 (** ** [parse::query] *)
@@ -404,6 +404,24 @@ Definition run_stream_window (x : xval) : xval :=
   | _ => bad_input
   end.
 
+(** component cc.kvarn: (L checked (B value)) -> outcome (max_age, no_store) of
+    [CacheControl::from_kvarn_cache_control] (Model/CacheControl.v, C04).  The header is read from the
+    RESPONSE of a handler or an upstream server, not from the client; with overflow checks
+    [integer * multiplier] panics (known class kvarn-cache-control-overflow). *)
+Definition run_cc_kvarn (x : xval) : xval :=
+  match x with
+  | XL [c; XB h] =>
+      match d_bool c with
+      | Some checked =>
+          if Range.to_str_ok h then
+            x_outcome (fun cc => XL [x_option XN (CacheControl.cc_max_age cc); x_bool (CacheControl.cc_no_store cc)])
+                      (CacheControl.from_kvarn_cache_control checked h)
+          else XL [XN 96]
+      | None => bad_input
+      end
+  | _ => bad_input
+  end.
+
 (** components explore.*: exploration runs (a live connection, crates that are not modelled).
     The "model" is the claim under test — the run ends cleanly — so that a panic shows up as
     a difference as well as in the model-independent oracle. *)
@@ -416,5 +434,6 @@ Definition panics_table : list (bytes * (xval -> xval)) :=
     (B "query.iter.spec", run_query_iter_spec);
     (B "pathquery", run_pathquery);
     (B "stream.window", run_stream_window);
+    (B "cc.kvarn", run_cc_kvarn);
     (B "explore.conn", run_explore);
     (B "explore.date", run_explore) ].
